@@ -2,6 +2,7 @@
 import itertools
 
 from .. import drv_valid as D
+from ..core import pmap
 
 
 def pick_variant(rng, kind, inp):
@@ -61,13 +62,12 @@ def injected_histories(rng, name, length):
 def run(ctx):
     q, rng = ctx.quick, ctx.rng
     ctx.model("MC_Validation", "MC_Validation%s.cfg" % ("" if q else "_deep"), require_actions=("Call",))
-    traces = []
+    work = []
     for name in D.DETECTORS:
         n = (3 if name.startswith("Bare") else 2) if q else (4 if name.startswith("Bare") else 3)
-        k = 0
         for calls in sequences(rng, name, n):
-            traces.append(D.run(name, calls, seed=rng.randrange(10 ** 6)))
-            k += 1
+            work.append((name, calls, rng.randrange(10 ** 6)))
+    traces = pmap(D.run, work)
     rep = lambda ts: (lambda i: {"name": ts[i]["name"], "calls": ts[i]["calls"], "seed": ts[i]["seed"]})
     nt = lambda t: any(e["raised"] != "None" for e in t["ev"]) and any(e["raised"] == "None" for e in t["ev"])
     ctx.validate("Validation", traces, "all call sequences over the input alphabet, 10 detector classes", sabotage=D.sabotage,
